@@ -42,7 +42,9 @@ def snapshot_tri(m):
                 fsym=canon_adj(fresh.adj_sym), fdir=canon_adj(fresh.adj_dir),
                 q=(bool(m.is_closed()), bool(m.is_manifold()), bool(m.is_oriented()), int(m.euler()), bool(m.has_free_vertices())),
                 fq=(bool(fresh.is_closed()), bool(fresh.is_manifold()), bool(fresh.is_oriented()), int(fresh.euler()), bool(fresh.has_free_vertices())),
-                avg=(float(m.avg_edge_length()), float(fresh.avg_edge_length())))
+                avg=(float(m.avg_edge_length()), float(fresh.avg_edge_length())),
+                shape=(tuple(m.adj_sym.shape) + tuple(m.adj_dir.shape), tuple(fresh.adj_sym.shape) + tuple(fresh.adj_dir.shape)),
+                deg=(core.call(lambda: [int(x) for x in m.vertex_degrees()]), core.call(lambda: [int(x) for x in fresh.vertex_degrees()])))
 
 
 def run_tri_history(v, t, ops):
@@ -115,6 +117,9 @@ class Check(BaseCheck):
             vf, tf = gen.add_free(rng, np.array(v, float), t2, 2)
             if len(np.unique(tf)) and int(np.max(tf)) == len(vf) - 1:      # last vertex used (smooth_ needs it)
                 out.append((name + "+free", vf, tf))
+            if name in ("octa", "grid"):
+                vt, tt2 = gen.add_trailing_free(rng, np.array(v, float), t2, 2)
+                out.append((name + "+trailing-free", vt, tt2))
         return out
 
     def sequences(self):
@@ -256,7 +261,8 @@ class Check(BaseCheck):
                 return core.Violation("history", "history did not complete: %s" % (res[:2],), case)
             snaps, caller_ok = res[1]
             for j, s in enumerate(snaps):
-                if s["sym"] != s["fsym"] or s["dir"] != s["fdir"] or s["q"] != s["fq"] or abs(s["avg"][0] - s["avg"][1]) > 1e-12 * max(1, abs(s["avg"][1])):
+                if s["sym"] != s["fsym"] or s["dir"] != s["fdir"] or s["q"] != s["fq"] or abs(s["avg"][0] - s["avg"][1]) > 1e-12 * max(1, abs(s["avg"][1])) \
+                        or s["shape"][0] != s["shape"][1] or s["deg"][0] != s["deg"][1]:
                     return core.Violation("stale-adjacency", "after step %d (%s) queries differ from a freshly constructed mesh" % (j + 1, ops[j]), case)
                 if ops[j][0] == "f" and s["err"] is None and s["q"][4]:
                     return core.Violation("rm_free", "free vertices remain after rm_free_vertices_", case)
